@@ -9,10 +9,11 @@ namespace Dist
 section
 variable {α : Type} [Add α] [Sub α] [Mul α] [Div α] [Neg α] [OfScientific α]
 
-/-- `misfit_bounds` on one coordinate: is the coordinate outside `[lb, ub]`? -/
-def outside1 [LT α] [DecidableLT α] (lb ub : Option α) (x : α) : Bool :=
-  (match lb with | some l => decide (x < l) | none => false) ||
-  (match ub with | some u => decide (u < x) | none => false)
+/-- `misfit_bounds` on one coordinate: is the coordinate outside `[lb, ub]`?
+    Written as "not inside", so that a NaN coordinate counts as outside. -/
+def outside1 [LE α] [DecidableLE α] (lb ub : Option α) (x : α) : Bool :=
+  (match lb with | some l => !decide (l ≤ x) | none => false) ||
+  (match ub with | some u => !decide (x ≤ u) | none => false)
 
 /-- StandardNormal1D.misfit without the bounds term: `0.5 * m^2 / T` -/
 def stdNormalMisfit (T x : α) : α := (0.5 * (x * x)) / T
